@@ -1,10 +1,16 @@
 package config
 
 import (
+	"errors"
 	"fmt"
 	"io"
 	"strings"
 )
+
+// ErrInvalidSubsectionName is returned when a subsection name cannot be
+// represented in a config file: git's reader ends a section header at the
+// first newline, and a NUL byte cannot be part of a name.
+var ErrInvalidSubsectionName = errors.New("config: subsection name contains a newline or NUL byte")
 
 // An Encoder writes config files to an output stream.
 type Encoder struct {
@@ -53,6 +59,10 @@ func (e *Encoder) encodeSection(s *Section) error {
 }
 
 func (e *Encoder) encodeSubsection(sectionName string, s *Subsection) error {
+	if strings.ContainsAny(s.Name, "\n\x00") {
+		return fmt.Errorf("%w: %q", ErrInvalidSubsectionName, s.Name)
+	}
+
 	if err := e.printf("[%s \"%s\"]\n", sectionName, subsectionReplacer.Replace(s.Name)); err != nil {
 		return err
 	}
